@@ -151,14 +151,17 @@ def probeIsTrue (hs : Headers) (h : List Char) : Bool :=
   | none => false
   | some raw => raw == sTrue
 
+/-- a present `VGI-Supported-Encodings` value: blank ⇒ `()`, else `parse_encoding_list(raw) or (zstd,)` -/
+def encodingsOfRaw (raw : List Char) : List Encoding :=
+  if (strip raw).isEmpty then []
+  else match parseEncodingList raw with
+    | [] => [.zstd]
+    | l => l
+
 def probeEncodings (hs : Headers) (h : List Char) : List Encoding :=
   match getHdr hs h with
   | none => [.zstd]
-  | some raw =>
-    if (strip raw).isEmpty then []
-    else match parseEncodingList raw with
-      | [] => [.zstd]
-      | l => l
+  | some raw => encodingsOfRaw raw
 
 def probeNames (hs : Headers) (h : List Char) : List (List Char) :=
   match getHdr hs h with
